@@ -7618,9 +7618,11 @@ def _ordered_unique(lst):
 def _is_base_n(s, n):
     try:
         int(s, n)
-        return True
     except ValueError:
         return False
+    # int() also accepts digit-group underscores ("1_0", "0x1_f"). The text is written out as it is, and neither the C
+    # compiler nor CMake takes such a number
+    return "_" not in s
 
 
 def _looks_like_number(s):
